@@ -1,6 +1,8 @@
 #!/bin/bash
 # tools/sweep.sh <tier> <seed>... : every claimed check with each seed; prints one summary line per run
 tier=$1; shift
+# background runs started with `vp run --with-repo` use the frozen copy of /repo
+if [ -n "${VP_RUN_REPO:-}" ]; then export VERIF_REPO=$VP_RUN_REPO; fi
 for s in "$@"; do
   for p in $(python3 -c "import json;print(' '.join(c['property_id'] for c in json.load(open('MANIFEST.json'))['checks']))"); do
     out=$(VERIF_SEED=$s ./check $p --tier $tier 2>&1); rc=$?
